@@ -56,6 +56,20 @@ fn main() {
             let tier = Tier::parse(&args[2]).unwrap();
             std::process::exit(fw::worker_main(find(&args[1]), tier, &args[3..]));
         }
+        "count" => {
+            let tier = Tier::parse(&args[2]).unwrap_or_else(|| usage());
+            let v = fw::count_cases(find(&args[1]), tier);
+            let total: u64 = v.iter().sum();
+            println!("units {} generated cases {}", v.len(), total);
+            if args.len() > 3 {
+                let mut lo = 0usize;
+                for hi in args[3].split(',').filter_map(|x| x.parse::<usize>().ok()).chain(std::iter::once(v.len())) {
+                    let hi = hi.min(v.len());
+                    println!("  units [{},{}): {}", lo, hi, v[lo..hi].iter().sum::<u64>());
+                    lo = hi;
+                }
+            }
+        }
         "case" => {
             if args.len() < 5 {
                 usage();
